@@ -23,7 +23,6 @@ from .util import (
     hostportjoin,
     hostportsplit,
     Sentinel,
-    quote_nonascii,
     DeprecationWarning,
 )
 from .util.uri import quote_factory, unreserved, sub_delims
@@ -649,7 +648,7 @@ class Message:
 
                 # FIXME: This sounds like it should be part of
                 # hpostportjoin/-split
-                escaped_host = quote_nonascii(host)
+                escaped_host = _quote_host(host)
 
                 # FIXME: "If host is not valid reg-name / IP-literal / IPv4address,
                 # fail"
@@ -887,9 +886,27 @@ class UndecidedRemote(
 _ascii_lowercase = str.maketrans(string.ascii_uppercase, string.ascii_lowercase)
 
 _quote_for_path = quote_factory(unreserved + sub_delims + ":@")
+_quote_for_reg_name = quote_factory(unreserved + sub_delims)
 _quote_for_query = quote_factory(
     unreserved + "".join(c for c in sub_delims if c != "&") + ":@/?"
 )
+
+
+def _quote_host(host):
+    """Express a Uri-Host value in the authority component of a URI
+
+    IPv6 literals (which hostportjoin puts into brackets) are passed on as
+    they are; everything else is a reg-name, in which all characters but the
+    unreserved and sub-delims ones need to be percent encoded lest they be
+    taken for delimiters or escapes when the URI is parsed again."""
+    if ":" in host or "[" in host:
+        try:
+            ipaddress.IPv6Address(host.removeprefix("[").removesuffix("]"))
+        except ValueError:
+            pass
+        else:
+            return host
+    return _quote_for_reg_name(host)
 
 
 class Direction(enum.Enum):
